@@ -356,10 +356,8 @@ def resolve(doc, ptr):
 
 def same(a, b):
     if isinstance(a, float) or isinstance(b, float):
-        try:
-            return float(a) == float(b) and not isinstance(a, bool) and not isinstance(b, bool)
-        except (TypeError, ValueError):
-            return False
+        # an integer of the document must be reported as that integer (not as a float-widened copy), a float as a float
+        return isinstance(a, float) and isinstance(b, float) and a == b
     if isinstance(a, dict) and isinstance(b, dict):
         return set(a) == set(b) and all(same(a[k], b[k]) for k in a)
     if isinstance(a, list) and isinstance(b, list):
